@@ -162,6 +162,9 @@ fn enc_body(c: &EncCase, ch: &Chooser) -> Outcome {
             ),
         );
     }
+    if ch.has_flag(crate::env::SOURCE_POLLED_AFTER_END) {
+        o.violate("source-polled-after-end", "the encoder polled its message source again after the source had returned None (a non-fused stream may panic or start over: the bytes would then depend on readiness)");
+    }
     if got.frames.iter().any(|f| f.is_empty()) {
         o.violate("encode-empty-frame", "an empty DATA frame was produced");
     }
@@ -196,6 +199,8 @@ struct DecCase {
     fixed: Option<Vec<usize>>,
 }
 
+/// Returns (messages and the first error in order, number of `None`s seen, stalled?, number of
+/// messages that arrived only AFTER a `None`).
 fn drive<T>(mut s: Streaming<T>, ser: impl Fn(&T) -> Vec<u8>) -> (Vec<Result<Vec<u8>, String>>, u32, bool) {
     let mut cx = Context::from_waker(Waker::noop());
     let mut out = vec![];
@@ -208,7 +213,14 @@ fn drive<T>(mut s: Streaming<T>, ser: impl Fn(&T) -> Vec<u8>) -> (Vec<Result<Vec
         }
         match Pin::new(&mut s).poll_next(&mut cx) {
             Poll::Pending => continue,
-            Poll::Ready(Some(Ok(m))) => out.push(Ok(ser(&m))),
+            Poll::Ready(Some(Ok(m))) => {
+                if ends > 0 {
+                    // a message after the stream had reported its end: the end was premature
+                    out.push(Err(format!("message of {} bytes yielded after the stream had already returned None", ser(&m).len())));
+                    return (out, ends, false);
+                }
+                out.push(Ok(ser(&m)))
+            }
             Poll::Ready(Some(Err(e))) => {
                 out.push(Err(fmt_status(&e)));
                 return (out, ends, false);
@@ -278,7 +290,8 @@ fn dec_body(c: &DecCase, ch: &Chooser) -> Outcome {
     let want: Vec<Vec<u8>> = e.msgs.iter().map(|m| ser(e.prost, m)).collect();
     let got_ok: Vec<Vec<u8>> = got.iter().filter_map(|r| r.clone().ok()).collect();
     if let Some(Err(err)) = got.last() {
-        o.violate("decode-error", format!("decoder failed on a valid stream after {} messages: {err}", got_ok.len()));
+        let key = if err.contains("already returned None") { "decode-premature-end" } else { "decode-error" };
+        o.violate(key, format!("decoder failed on a valid stream after {} messages: {err}", got_ok.len()));
         return o;
     }
     if got_ok != want {
